@@ -973,7 +973,7 @@ class ByConstituency:
         for district, dvotes in votes.items():
             result = self._evaluate_district(
                 dvotes,
-                apportionment.get(district),
+                apportionment.get(district, 0),
                 preselected,
                 prev_gains.get(district, {}),
                 max_seats.get(district, {}),
